@@ -9,6 +9,7 @@
   they return no new state and therefore cannot evaluate anything.
 -/
 import EpsieProofs.PTInv
+import EpsieProps.C08
 namespace Epsie.C18
 open Chain
 
@@ -282,5 +283,38 @@ theorem C18_recorded_from_that_call {c : Chain} {cur : St} {i : StepIn}
     obtain ⟨lp, hlp⟩ := accepted_logp_some ha
     simp [ha, hlp]
   · simp at hacc
+
+/-! ### Non-vacuity -/
+
+/-- The two-level chain of `C08.ops0` after its start positions were set (2 evaluations). -/
+def ptS : PTChain := PTChain.runOps (PTChain.fresh [1, 1/2] 1 [C08.cfg0]) (C08.ops0.take 2)
+
+def in1 : PTChain.StepIn :=
+  { levels := [ { jumps := [[.num 3]], eval := C08.m0 [.num 3], rev := [0], fwd := [0], logu := -1 },
+                { jumps := [[.num 0]], eval := C08.m0 [.num 0], rev := [0], fwd := [0], logu := 0 } ],
+    sweep := { us := [], newBetas := [] } }
+
+/-- The second iteration's sweep sees equal log-likelihoods (`logar = 0`) and draws a uniform. -/
+def in2 : PTChain.StepIn := { in1 with sweep := { us := [-1], newBetas := [] } }
+
+/-- `C18_run_count` applies: the chain has no componentwise proposal and the run succeeds;
+    two iterations with two sweeps on two levels made exactly four more evaluations. -/
+example : NoComp ptS := by
+  have h : ptS.levels.all (fun l => l.props.all fun p => !p.cfg.comp) = true := by decide +kernel
+  intro l hl p hp
+  have := List.all_eq_true.mp (List.all_eq_true.mp h l hl) p hp
+  simpa using this
+
+example : ((Sampler.evolve ptS [in1, in2]).map totalCalls) = some (totalCalls ptS + 2 * 2) ∧
+    totalCalls ptS = 2 := by decide +kernel
+
+/-- A componentwise Andrieu–Thoms proposal on two parameters inside its window makes two
+    virtual evaluations per update and none outside the window. -/
+example :
+    let cfg : PropCfg := { params := [0, 1], symmetric := true, adaptive := true, k := 1, dur := 0,
+                           window := .at, T := 10, start0 := 1, comp := true, savesNsteps := true }
+    extraCalls [{ cfg := cfg, raw := 3, startStep := 1, events := [] }] = 2 ∧
+    extraCalls [{ cfg := cfg, raw := 0, startStep := 1, events := [] }] = 0 ∧
+    extraCalls [{ cfg := cfg, raw := 12, startStep := 1, events := [] }] = 0 := by decide +kernel
 
 end Epsie.C18
